@@ -461,7 +461,10 @@ func (p *probeInfo) dump() string {
 	return sb.String()
 }
 
-// ---- known finding (excluded by construction while it is listed as known) -------------------
+// ---- finding commonsnapshot-sibling-dedupe (fixed in /repo 40e6583) ---------------------------
+//
+// The exclusion below is inert unless known_findings.json lists the signature with status
+// "known" (it is listed as fixed: nothing is excluded, TestRegFetchSiblingSnapshots* must pass).
 //
 // Signature "commonsnapshot-sibling-dedupe": a batch applied WITHOUT a snapshot path (the
 // full response collector's way) needs a rebuild from storage, and the snapshots the
@@ -1265,8 +1268,44 @@ func TestScenario(t *testing.T) {
 	}, run)
 }
 
+// Regressions for the fixed finding commonsnapshot-sibling-dedupe (treeBuilder.commonSnapshot
+// deduped snapshots by their parent id and returned one of two sibling snapshots instead of
+// their common parent). History: A: S2=snapshot(root); B: b=change(root); B receives S2;
+// B: m=change([S2,b]); B: S1=snapshot(m) (base root); A: x=change(S2) (base S2); B receives x.
+// A fresh participant that is fed B's answer to an empty-heads request batch by batch without a
+// snapshot path is reduced to S1 by the batch ending in S1 and must still attach x afterwards.
+func regSiblingHistory(seed uint64, big bool, sizes [5]int, probe Op) Case {
+	return Case{Seed: seed, N: 2, Holders: 2, Big: big, Ops: []Op{
+		{K: "edit", A: 0, B: 0, C: sizes[0]},
+		{K: "edit", A: 1, B: 1, C: sizes[1]},
+		{K: "deliver", A: 0},
+		{K: "blackout", A: 100},
+		{K: "edit", A: 1, B: 1, C: sizes[2]},
+		{K: "edit", A: 1, B: 0, C: sizes[3]},
+		{K: "blackout", A: 100},
+		{K: "edit", A: 0, B: 1, C: sizes[4]},
+		{K: "deliver", A: 0},
+		{K: "blackout", A: 100},
+		probe,
+	}}
+}
+
+// loader level, one change per batch (limit 64), the collector's application on a fresh participant
+func TestRegFetchSiblingSnapshots(t *testing.T) {
+	outerT = t
+	vstat.One(t, prop, regSiblingHistory(21, false, [5]int{1, 1, 1, 1, 1}, Op{K: "probe-new", A: 1, C: lim64, D: 2}), run)
+}
+
+// end to end: 200-410 KB changes, production batch size, real tree getter + full response collector
+func TestRegFetchSiblingSnapshotsE2E(t *testing.T) {
+	outerT = t
+	vstat.One(t, prop, regSiblingHistory(35, true, [5]int{0, 0, 1, 2, 3}, Op{K: "probe-fetch", A: 1}), run)
+}
+
 func TestReplay(t *testing.T) {
 	outerT = t
 	t.Run("TestRandom", func(t *testing.T) { vstat.Replay(t, prop, "TestRandom", run) })
 	t.Run("TestScenario", func(t *testing.T) { vstat.Replay(t, prop, "TestScenario", run) })
+	t.Run("TestRegFetchSiblingSnapshots", func(t *testing.T) { vstat.Replay(t, prop, "TestRegFetchSiblingSnapshots", run) })
+	t.Run("TestRegFetchSiblingSnapshotsE2E", func(t *testing.T) { vstat.Replay(t, prop, "TestRegFetchSiblingSnapshotsE2E", run) })
 }
